@@ -1,12 +1,44 @@
 (** C13 — obligations over the constants printed from the linked /repo packages (Gen/C13Facts.v):
-    the module's default parameters, default genesis counters and the collections.Sequence default. *)
-From Coq Require Import ZArith List Bool Lia. Import ListNotations.
+    the module's default parameters, default genesis counters and the collections.Sequence default; the roll-over
+    comparison of hooks.go; and the x/bank blocked-recipient table of the application wiring (which module accounts the
+    constructed application's bank keeper refuses as recipients). *)
+From Coq Require Import String ZArith List Bool Lia. Import ListNotations.
 Require Import Nib.Lib.Dec Nib.C13.Model Nib.C13.Spec Nib.C13.Check Nib.C13.Arith Nib.C13.Proofs Nib.C13.Property.
 Require Import Nib.Gen.C13Facts.
 Local Open Scope Z_scope.
 
-Definition gen_genesis : st :=
-  {| s_params := gen_default_params; s_period := Some gen_genesis_period; s_skipped := Some gen_genesis_skipped; s_module := 0 |}.
+Definition gen_genesis_with (rt : root) : st :=
+  {| s_params := gen_default_params; s_period := Some gen_genesis_period; s_skipped := Some gen_genesis_skipped; s_module := 0;
+     s_root := rt |}.
+Definition gen_genesis : st := gen_genesis_with (RAcct 0).
+
+(* ---------------------------------------------------------------- the wiring: who may receive the strategic reserve *)
+
+(** the governance module account of the linked cosmos-sdk is the one the model calls operable *)
+Theorem C13_gov_account_is_modelled : gen_gov_account = gov_account /\ In gov_account gen_module_accounts.
+Proof. split; [reflexivity|]. vm_compute. tauto. Qed.
+
+(** THE WIRING OBLIGATION: on this tree the application's bank keeper lets every account that can operate as sudo root
+    — every ordinary account and the governance module account — receive funds.  (Every OTHER module account of this
+    tree is a blocked recipient: MsgChangeRoot to one of them is accepted, nobody can sign as root afterwards, and
+    C13_blocked_root_partial_effects describes what the epoch hook then does.) *)
+Theorem C13_operable_roots_can_receive : wiring_ok gen_blocked.
+Proof. apply wiring_okb_sound. vm_compute. reflexivity. Qed.
+Print Assumptions C13_operable_roots_can_receive.
+
+(** hence on this tree, along EVERY history from EVERY state, everything minted is distributed and the period moves by
+    the integer test at every day-epoch end at which the sudo root is an operable account *)
+Theorem C13_distributed_on_this_wiring :
+  forall (zp : bool) (ops : list op) (s : st),
+    0 <= s_module s -> Forall fund_nonneg ops ->
+    P_dist (s_params s) (s_root s) (s_module s) (combine ops (snd (run gen_blocked zp s ops))) /\
+    P_roll (s_params s) (s_root s) (s_module s) (peek (s_period s)) (peek (s_skipped s)) (combine ops (snd (run gen_blocked zp s ops))).
+Proof.
+  intros zp ops s Hm Hf. split.
+  - exact (C13_distributed_along_every_history gen_blocked zp ops s C13_operable_roots_can_receive Hm Hf).
+  - exact (C13_integer_rollover_along_every_history gen_blocked zp ops s C13_operable_roots_can_receive).
+Qed.
+Print Assumptions C13_distributed_on_this_wiring.
 
 (** an unset collections.Sequence reads as the constant the model uses *)
 Theorem C13_sequence_default_is_modelled : gen_sequence_default = seq_default.
@@ -15,9 +47,11 @@ Proof. vm_compute. reflexivity. Qed.
 (** the default genesis carries the default parameters, is consistent at day epoch 1, has valid proportions and
     sizes far from wrap-around *)
 Theorem C13_default_genesis_consistent :
-  gen_genesis_params_are_default = true /\ Consistent gen_genesis 1 /\ dist_ok gen_default_params /\
-  small (p_epp gen_default_params) (p_max gen_default_params) /\ 0 <= peek (s_skipped gen_genesis).
+  forall rt : root,
+  gen_genesis_params_are_default = true /\ Consistent (gen_genesis_with rt) 1 /\ dist_ok gen_default_params /\
+  small (p_epp gen_default_params) (p_max gen_default_params) /\ 0 <= peek (s_skipped (gen_genesis_with rt)).
 Proof.
+  intro rt.
   split; [vm_compute; reflexivity|]. split; [apply genesis_consistent; vm_compute; try reflexivity; discriminate|].
   split; [vm_compute; repeat split; discriminate|]. split; vm_compute; repeat split; discriminate.
 Qed.
@@ -27,14 +61,16 @@ Qed.
 Theorem C13_default_polynomial_unit : poly_unit gen_default_params.
 Proof. apply poly_unitb_sound. vm_compute. reflexivity. Qed.
 
-(** hence, on a chain started from the default genesis, every history of toggles, day-epoch ends and other
-    identifiers' epoch ends (no edits of the params) follows the closed-form schedule *)
+(** hence, on a chain started from the default genesis with any operable sudo root, under the wiring of this tree,
+    every history of toggles, day-epoch ends, other identifiers' epoch ends and hand-overs of the sudo root to operable
+    accounts (no edits of the params) follows the closed-form schedule *)
 Fixpoint no_edits (ops : list op) (e : Z) : Prop :=
   match ops with
   | [] => True
   | EpochEnd true e' :: r => e' = e /\ 0 <= e < two62 /\ no_edits r (e + 1)
   | EpochEnd false _ :: r => no_edits r e
   | Toggle _ _ :: r => no_edits r e
+  | ChangeRoot auth rt :: r => (auth = true -> operable rt = true) /\ no_edits r e
   | _ :: _ => False
   end.
 
@@ -46,7 +82,7 @@ Lemma no_edits_hist_ok : forall ops p c e,
   hist_ok (p_epp gen_default_params) (p_max gen_default_params) p c e ops.
 Proof.
   induction ops as [|o r IH]; intros p c e Hn Hc F1 F2 F3 F4 F5 F6; [exact I|].
-  destruct o as [[|] e'|auth b|auth ed|amt]; cbn [no_edits hist_ok next_params] in *; try contradiction.
+  destruct o as [[|] e'|auth b|auth ed|amt|auth rt]; cbn [no_edits hist_ok next_params] in *; try contradiction.
   - destruct Hn as [-> [He Hr]]. split; [reflexivity|]. split; [exact He|]. split.
     + intros _. split.
       * apply poly_pos_prov_ok; [|rewrite F2; vm_compute; reflexivity|exact Hc].
@@ -57,16 +93,18 @@ Proof.
     + apply IH; auto. destruct (p_enabled p); lia.
   - split; [exact F2|]. split; [exact F3|]. apply IH; auto.
   - destruct auth; cbn; (split; [exact F2|]; split; [exact F3|]; apply IH; auto).
+  - destruct Hn as [Ho Hr]. split; [exact Ho|]. split; [exact F2|]. split; [exact F3|]. apply IH; auto.
 Qed.
 
 Theorem C13_default_chain_follows_schedule :
-  forall (ops : list op),
-    no_edits ops 1 ->
-    map view_of (snd (run false gen_genesis ops)) = snd (spec_run {| q_params := gen_default_params; q_c := 0 |} ops).
+  forall (rt : root) (ops : list op),
+    operable rt = true -> no_edits ops 1 ->
+    map view_of (snd (run gen_blocked false (gen_genesis_with rt) ops)) =
+    snd (spec_run {| q_params := gen_default_params; q_c := 0 |} ops).
 Proof.
-  intros ops Hn.
-  destruct C13_default_genesis_consistent as [_ [Hc [_ [Hs Hk]]]].
-  pose proof (C13_period_tracks_schedule ops gen_genesis 1 Hc eq_refl Hk Hs) as T.
+  intros rt ops Ho Hn.
+  destruct (C13_default_genesis_consistent rt) as [_ [Hc [_ [Hs Hk]]]].
+  pose proof (C13_period_tracks_schedule gen_blocked ops (gen_genesis_with rt) 1 C13_operable_roots_can_receive Ho Hc eq_refl Hk Hs) as T.
   cbv zeta in T. apply T.
   apply no_edits_hist_ok; auto; vm_compute; discriminate.
 Qed.
